@@ -8,7 +8,7 @@ ID = "C07"
 ALPHABET = ["\\", "n", "N", ";", ",", ":", '"', "%", "2", "C", "\r", "\n", " ", "a"]
 SPECIAL = set('\\;,:"%\r\n')
 RULE = ("strings over the critical alphabet {\\ n N ; , : \" % 2 C CR LF SP a}, exhaustive up to length L (quick L<=4, thorough L<=5 on "
-        "all paths and L<=6 on the direct codec), each sent through (a) vText encode/decode, (b) a SUMMARY/DESCRIPTION/COMMENT/X- property of a "
+        "all paths and L<=6 on the direct codec), each sent through (a) vText encode/decode, (b) a SUMMARY/DESCRIPTION/COMMENT/LOCATION/STATUS/CLASS/TRANSP/CONTACT/RELATED-TO/REQUEST-STATUS/X- property of a "
         "VEVENT (lenient) or VTODO (strict) through to_ical/from_ical, (c) CATEGORIES lists of 1-3 items (items exhaustive <=2 chars, pairs "
         "exhaustive); plus seeded long random Unicode strings (all planes, controls, combining marks, BOM); non-trivial = the string contains a "
         "character that needs escaping or normalising; distinct by construction (enumeration) or case hash")
@@ -19,7 +19,9 @@ SOFT_S = {"quick": 14, "thorough": 420}
 HARD_S = {"quick": 600, "thorough": 7200}
 
 HOSTS = [("VEVENT", "SUMMARY"), ("VTODO", "DESCRIPTION"), ("VEVENT", "X-VERIF-TEXT"), ("VTODO", "COMMENT"),
-         ("VEVENT", "LOCATION"), ("VJOURNAL", "SUMMARY")]
+         ("VEVENT", "LOCATION"), ("VJOURNAL", "SUMMARY"),
+         # TEXT properties that usually carry a keyword - text all the same
+         ("VEVENT", "STATUS"), ("VTODO", "CLASS"), ("VEVENT", "TRANSP"), ("VJOURNAL", "CONTACT"), ("VEVENT", "RELATED-TO"), ("VTODO", "REQUEST-STATUS")]
 
 
 def strings(maxlen):
